@@ -220,6 +220,12 @@ func c22DispCase(out *verifx.Out, e *c22Env, k int, dc c22DispCfg) {
 		// the dispatcher wakes on a committed enqueue (or once a second): tick it with enqueues for a key
 		// whose publishes always succeed, until every entry has made its publishes or the budget is used up
 		deadline := time.Now().Add(8*st.maxb + 8*st.lease + 4*time.Second)
+		tl := time.Now()
+		defer func() {
+			if os.Getenv("C22_DEBUG") != "" {
+				fmt.Fprintf(os.Stderr, "stage %d: loop+extra took %v\n", si, time.Since(tl))
+			}
+		}()
 		for time.Now().Before(deadline) {
 			done := true
 			pub.mu.Lock()
@@ -244,7 +250,11 @@ func c22DispCase(out *verifx.Out, e *c22Env, k int, dc c22DispCfg) {
 				time.Sleep(40 * time.Millisecond)
 			}
 		}
+		t0 := time.Now()
 		verifx.Check(mw.Stop(ctx))
+		if os.Getenv("C22_DEBUG") != "" {
+			fmt.Fprintf(os.Stderr, "stage %d: stop took %v\n", si, time.Since(t0))
+		}
 	}
 	rows := readRows()
 	pub.mu.Lock()
